@@ -81,7 +81,7 @@ def replay(ctx, rp, binary):
         print("cannot parse replay case"); return 2
     cmd = [binary, "--scenario", m.group(1), "--variant", m.group(2), "--pb", m.group(3), "--eb", m.group(4), "--replay-case", m.group(6) or "0"]
     args = rp.get("args") or []
-    for k in ("--plain", "--processors", "--spurious", "--horizon"):
+    for k in ("--plain", "--processors", "--spurious", "--horizon", "--delay-bounded"):
         if k in args:
             cmd += [k, args[args.index(k) + 1]]
     print("replay:", " ".join(cmd))
